@@ -128,6 +128,22 @@ CHECKS.update({
             "DESIGN.md section 3 C16"),
 })
 
+CHECKS.update({
+    "C06": ("Bounded symbolic execution of the wire-level serializers: every OpenAPI 3 style x explode x type combination (28 configurations) and "
+            "Swagger 2 collectionFormat run on symbolic item strings and decoded back by an independent decoder written from the OpenAPI 3.0.3 "
+            "style table; primitives incl. 0/false/''; jsonify_python_specific_types and _stringify_value; RequestsTransport.serialize_case with "
+            "symbolic media type / explicit Content-Type spelling / body kind; base_path under re-configuration. Percent-encoding and the URL "
+            "join (urllib/requests byte-level code) are outside. Known finding: matrix explode=false drops the parameter name.",
+            "CrossHair symbolic execution (z3) of serialize_openapi3_parameters/serialize_swagger2_parameters/jsonify/serialize_case against a style-table decoder",
+            "DESIGN.md section 3 C06"),
+    "C08": ("Bounded symbolic execution of operation collection on documents loaded inside the harness: get_all_operations / schema[path][method] / "
+            "get_operation_by_id / get_operation_by_reference with symbolic collisions between path-level and operation-level parameters, symbolic "
+            "placement of path-level parameters over consecutive path items, symbolic access sequences over the shared caches (incl. ~0/~1 paths), "
+            "and symbolic malformed entries. YAML-vs-JSON typing and multi-file layouts are outside. Known finding: a non-object parameter entry aborts iteration.",
+            "CrossHair symbolic execution (z3) of get_all_operations/_collect_operation_parameters/get_operation_by_id/get_operation_by_reference/OperationCache over symbolic documents and access orders",
+            "DESIGN.md section 3 C08"),
+})
+
 NOT_APPLICABLE = {
     "C13": "Seed reproducibility is a 2-run hyper-property of the whole program through Hypothesis' engine, its PRNG, identity-keyed caches and "
            "set iteration order; none of it can be made a symbolic variable of a bounded encoding, and the only solver-shaped fragment "
